@@ -242,5 +242,17 @@ func Check(r *ev.Run, replay string) {
 	r.Set("programs_compiled", int(st.compiled))
 	r.Set("programs_rejected_by_compiler_skipped", int(st.rejected))
 	r.Set("programs_run_side_by_side", int(st.ran))
-	r.Set("rule", "every program of the shared corpus (control skeletons, operators, functions, scoping, containers/strings, errors/defer, closures to depth 3/5, every constant kind and escape): compile, MarshalCode twice (deterministic), compile again (same bytes), UnmarshalCode (never fails), MarshalCode again (same bytes), run original and reloaded code on fresh VMs (same value, error class/message, output); afterwards the original marshals to the same bytes again, and a second load of the bytes and a second run of the first load behave like the first run; distinct = distinct (family, outcome) pairs")
+	// code accumulated by one compiler over several inputs
+	{
+		ss := sessions(3)
+		envs := make([]*rt.Env, 16)
+		ev.ParFor(16, func(w int) {
+			envs[w] = rt.NewEnv(nil)
+			for i := w; i < len(ss); i += 16 {
+				session(r, envs[w], ss[i])
+			}
+		})
+		r.Set("incremental_sessions", len(ss))
+	}
+	r.Set("rule", "every program of the shared corpus (control skeletons, operators, functions, scoping, containers/strings, errors/defer, closures to depth 3/5, every constant kind and escape): compile, MarshalCode twice (deterministic), compile again (same bytes), UnmarshalCode (never fails), MarshalCode again (same bytes), run original and reloaded code on fresh VMs (same value, error class/message, output); afterwards the original marshals to the same bytes again, and a second load of the bytes and a second run of the first load behave like the first run; plus the code accumulated by one compiler over every sequence of <= 3 inputs from an 11-piece alphabet (accepted inputs and inputs rejected at the top level, inside a function literal, a named function, a block): marshal, unmarshal, re-marshal, run both; distinct = distinct (family, outcome) pairs")
 }
